@@ -5,16 +5,20 @@ Models: `Model.TextExpo`, `Model.OMExpo`, `Model.Escape`, `Model.Validation` (sh
 `Model.Ctor`.  Spec: the independent line grammar `Spec.LineGrammar` (`classify`, `graphiteLine`, `splitOn`).
 Lemmas: `Lemmas/Lines*.lean`.  All statements are over unbounded strings / lists (induction), core Lean only.
 
-Three findings of the unchanged tree make the full-strength statements false; each `_partial` theorem carries a
-decidable hypothesis that excludes exactly the finding's input class, and a kernel-checked counter-example shows the
-model itself exhibits the finding:
-  F2  `$` in the name regexes also matches before a final LF: such a name is written bare   (`f2Name`)
-  F3  OpenMetrics writes exemplar label names raw                                           (`exemplarOK`: bare names)
-  F4  OpenMetrics writes the unit raw                                                       (`unitTok`)
-  G1  the Graphite prefix is inserted raw                                                   (`graphiteOK`: prefix in path alphabet)
-  G2  an empty sample name with an empty prefix gives an empty Graphite path                (`graphiteOK`: path not empty)
-Hypotheses that are not findings: values / float timestamps are number tokens (they are `repr` texts of doubles),
-the family type is one of `METRIC_TYPES` (enforced by `Metric.__init__`), the Graphite clock is not negative.
+History: F2 (`$` in the name regexes also matched before a final LF, so `a\n` was written bare) and F3 (OpenMetrics
+wrote exemplar label names raw) were repaired in /repo; T1 now extracts an exact end anchor and
+`exemplarNameEscaped = true`, and the text / OpenMetrics theorems below no longer assume anything about ANY name, label
+name, label value, help text, enum state, info key/value or exemplar label.  If either repair is reverted the extracted
+definitions change and `metric_anchor_exact` / `label_anchor_exact` / `exemplar_name_escaped` (Lemmas) stop checking.
+
+Remaining `_partial` theorems carry a decidable hypothesis excluding exactly a KNOWN finding, with a kernel-checked
+counter-example showing the model exhibits it:
+  F4  OpenMetrics writes the unit raw                                              (`familyOKOM`: unit empty or `unitTok`)
+  G2  an empty sample name with an empty prefix gives an empty Graphite path       (`graphiteOK`: path not empty)
+Preconditions that are not findings: values / float timestamps are number tokens (they are `repr` texts of doubles),
+the family type is one of `METRIC_TYPES` (enforced by `Metric.__init__`), the Graphite clock is not negative, and the
+Graphite `prefix` — operator configuration, outside the property's quantifier, inserted raw by `push` — consists of
+path characters (`graphite_prefix_counterexample` documents that limit).
 -/
 import PromVerif.Lemmas.LinesCtor
 import PromVerif.Lemmas.LinesGraphite
@@ -75,16 +79,11 @@ theorem text_line_count (fs : List Family) :
   | nil => rfl
   | cons f r ih => simp [List.flatMap_cons, familyLines_length, ih]
 
-/-
-Full strength (FALSE on the unchanged tree because of F2):
-  theorem text_lines_exact (fs : List Family) (hnum : values are number tokens) (htyp : types ∈ METRIC_TYPES) :
-      splitOn '\n' (TextExpo.generateLatest fs) = ((fs.flatMap TextExpo.familyLines).map List.dropLast) ++ [[]] ∧ …
-Proved: the same with `familyOKText`, i.e. additionally no written family name, sample name or label name is an F2
-name (`f2Name`: ends in LF and is a legacy name without that LF).  Missing: nothing else.
--/
-/-- splitting the text exposition on LF yields exactly the line strings the model wrote (one per HELP/TYPE/sample,
-`expectedLineCount` per family) and each of them is a line of the independent grammar -/
-theorem text_lines_exact_partial (fs : List Family) (h : ∀ f ∈ fs, familyOKText f = true) :
+/-- FULL STRENGTH.  For every registry — every string in every name, label name, label value and help position,
+sample names unrelated to the family name included — whose types are `METRIC_TYPES` members and whose values are number
+tokens (`familyOKText`): splitting the text exposition on LF yields exactly the line strings the model wrote (one per
+HELP/TYPE/sample, `expectedLineCount` per family) and each of them is a line of the independent grammar -/
+theorem text_lines_exact (fs : List Family) (h : ∀ f ∈ fs, familyOKText f = true) :
     splitOn '\n' (TextExpo.generateLatest fs) = (fs.flatMap TextExpo.familyLines).map List.dropLast ++ [[]] ∧
     ((fs.flatMap TextExpo.familyLines).map List.dropLast).length = (fs.map expectedLineCount).sum ∧
     ∀ l ∈ (fs.flatMap TextExpo.familyLines).map List.dropLast, recognise false l = true := by
@@ -101,46 +100,56 @@ theorem text_lines_exact_partial (fs : List Family) (h : ∀ f ∈ fs, familyOKT
     obtain ⟨k, hk⟩ := hall l0 hl0
     simp [recognise, hk.kind]
 
-/-- one sample line of the text format, in isolation -/
-theorem text_sample_line_partial (s : Sample) (h : sampleOKText s = true) :
+/-- one sample line of the text format, in isolation: any name, any labels; the value a number token -/
+theorem text_sample_line (s : Sample) (h : floatTok s.value = true) :
     ∃ b, TextExpo.sampleLine s = b ++ ['\n'] ∧ '\n' ∉ b ∧ classify false b = some .sample := by
   obtain ⟨b, hb, hk⟩ := text_sampleLine_lineOf s h
   exact ⟨b, hb, classify_noLF false b _ hk, hk⟩
 
-/-- non-vacuity: a family with a non-legacy name, adversarial label values and help, a `_created` sample -/
+/-- no label name whatsoever can break a sample line: `escape_label_name(k)="…"` is, for EVERY `k` and `v`, LF-free
+and one well-formed label item of the grammar (sample labels and exemplar labels alike).  In particular a
+reserved-looking name such as `__a\nb` — accepted under UTF-8 validation because `^__.*$` does not match across the
+LF — is not a legacy name, hence quoted and escaped. -/
+theorem any_label_name_is_safe (om ex f : Bool) (k v : Str) :
+    '\n' ∉ escapeLabelName k ++ ['=', '"'] ++ escape v ++ ['"'] ∧
+    run om (.lb ex f) (escapeLabelName k ++ ['=', '"'] ++ escape v ++ ['"']) = .qe (if ex then .exval else .lval) := by
+  refine ⟨?_, run_labelItem om ex f k v⟩
+  intro hm
+  have := run_of_mem_lf om (.lb ex f) _ hm
+  rw [run_labelItem om ex f k v] at this
+  cases this
+
+/-- likewise every metric / sample name: `escape_metric_name(n)` followed by a space is a well-formed name token -/
+theorem any_metric_name_is_safe (n t : Str) : metaName (escapeMetricName n ++ ' ' :: t) = some t :=
+  metaName_escapeMetricName n t
+
+example : validateLabelname false "__a\nb".toList = .ok () := by decide
+example : isValidLegacyLabelname "__a\nb".toList = false ∧ isValidLegacyLabelname "__a\n".toList = false ∧
+    isValidLegacyLabelname "l\n".toList = false ∧ isValidLegacyMetricName "a\n".toList = false := by decide
+
+/-- non-vacuity: a family with a non-legacy name, adversarial label names/values and help, a `_created` sample,
+names ending in LF, a reserved-looking label name containing LF -/
 def exFam : Family :=
-  ⟨"a b".toList, "he\"l\\p\nx".toList, "counter".toList, [],
-    [⟨"a b_total".toList, [("l é".toList, "v\n\"\\".toList), ("k".toList, [])], "1.0".toList, none, none⟩,
-     ⟨"a b_created".toList, [], "1.5".toList, none, none⟩]⟩
+  ⟨"a b\n".toList, "he\"l\\p\nx".toList, "counter".toList, [],
+    [⟨"a b\n_total".toList, [("l é\n".toList, "v\n\"\\".toList), ("__a\nb".toList, []), ("k\n".toList, [])], "1.0".toList, none, none⟩,
+     ⟨"a b\n_created".toList, [], "1.5".toList, none, none⟩, ⟨"x\n".toList, [], "2.0".toList, none, none⟩]⟩
 example : familyOKText exFam = true := by decide
-example : expectedLineCount exFam = 6 := by decide
+example : expectedLineCount exFam = 7 := by decide
 
-/-- F2 in the model: `Gauge('a\n','h')` — accepted even under legacy validation — is written bare and the output
-splits into 7 pieces instead of 3 lines + the empty tail; the pieces are not lines of the grammar -/
-def f2Fam : Family := ⟨['a', '\n'], ['h'], "gauge".toList, [], [⟨['a', '\n'], [], "1.0".toList, none, none⟩]⟩
-theorem f2_counterexample :
-    validateMetricName true f2Fam.name = .ok () ∧
-    TextExpo.generateLatest [f2Fam] = "# HELP a\n h\n# TYPE a\n gauge\na\n 1.0\n".toList ∧
-    (splitOn '\n' (TextExpo.generateLatest [f2Fam])).length = 7 ∧ expectedLineCount f2Fam = 3 ∧
-    lineKinds false (TextExpo.generateLatest [f2Fam]) = [none, none, none, none, none, none, none] ∧
-    familyOKText f2Fam = false := by decide +kernel
-
-/-- F2 for a label name: `Gauge('g','h',['l\n'])` -/
-def f2LabelFam : Family :=
-  ⟨['g'], ['h'], "gauge".toList, [], [⟨['g'], [(['l', '\n'], ['v'])], "1.0".toList, none, none⟩]⟩
-theorem f2_label_counterexample :
-    validateLabelname true ['l', '\n'] = .ok () ∧
-    TextExpo.generateLatest [f2LabelFam] = "# HELP g h\n# TYPE g gauge\ng{l\n=\"v\"} 1.0\n".toList ∧
-    lineKinds false (TextExpo.generateLatest [f2LabelFam]) = [some .help, some .type, none, none, none] ∧
-    familyOKText f2LabelFam = false := by decide +kernel
+/-- regression of repaired F2: `Gauge('a\n','h',['l\n'])` (now only constructible under UTF-8 validation) is quoted -/
+def f2Fam : Family :=
+  ⟨['a', '\n'], ['h'], "gauge".toList, [], [⟨['a', '\n'], [(['l', '\n'], ['v'])], "1.0".toList, none, none⟩]⟩
+example : validateMetricName true f2Fam.name = .error .valueError ∧ validateLabelname true ['l', '\n'] = .error .valueError ∧
+    TextExpo.generateLatest [f2Fam] = "# HELP \"a\\n\" h\n# TYPE \"a\\n\" gauge\n{\"a\\n\",\"l\\n\"=\"v\"} 1.0\n".toList ∧
+    lineKinds false (TextExpo.generateLatest [f2Fam]) = [some .help, some .type, some .sample, none] := by decide +kernel
 
 -- (2)+(3)+(4) OpenMetrics -----------------------------------------------------------------------------------------
 /-
-Full strength (FALSE on the unchanged tree because of F2, F3, F4):
+Full strength (FALSE on the unchanged tree because of the known finding F4):
   theorem om_lines_exact (fs) (out) (h : OMExpo.generateLatest fs = .ok out) (numbers are number tokens, types ∈ METRIC_TYPES) :
       lineKinds true out = ((fs.flatMap omKinds ++ [.eof]).map some) ++ [none]
-Proved: the same with `familyOKOM`: additionally no family/sample/label name is an F2 name, exemplar label names are
-in the bare label alphabet (F3), a non-empty unit has no LF, quote or backslash (F4).  Missing: nothing else.
+Proved: the same with `familyOKOM`, whose only additional demand is that a non-empty unit has no LF, quote or backslash
+(the unit is written raw: F4).  Nothing is assumed about names, labels, help or exemplar labels.  Missing: the unit.
 -/
 /-- splitting the OpenMetrics exposition on LF and classifying every piece with the independent grammar gives, per
 family, HELP, TYPE, UNIT iff the unit is non-empty, one sample line per sample — then exactly one `# EOF` — then the
@@ -221,8 +230,9 @@ where
           · simp only [he, Bool.false_eq_true, if_false] at hb
             split at hb <;> simp at hb
 
-/-- one sample line of OpenMetrics (timestamp and exemplar included), in isolation -/
-theorem om_sample_line_partial (fam : Family) (s : Sample) (l : Str) (hok : sampleOKOM s = true)
+/-- FULL STRENGTH: one sample line of OpenMetrics (timestamp and exemplar included), in isolation — any name, labels and
+exemplar labels; numbers are number tokens -/
+theorem om_sample_line (fam : Family) (s : Sample) (l : Str) (hok : sampleOKOM s = true)
     (h : OMExpo.sampleLine fam s = .ok l) :
     ∃ b, l = b ++ ['\n'] ∧ '\n' ∉ b ∧ classify true b = some .sample := by
   obtain ⟨b, hb, hk⟩ := om_sampleLine_lineOf fam s l hok h
@@ -232,32 +242,21 @@ theorem om_sample_line_partial (fam : Family) (s : Sample) (l : Str) (hok : samp
 def exFamOM : Family :=
   ⟨"c d_s".toList, "h\n".toList, "counter".toList, ['s'],
     [⟨"c d_s_total".toList, [("l é".toList, "v\n\"\\".toList)], "1.0".toList, some ⟨.stamp 1 5, 1000⟩,
-      some ⟨[("trace_id".toList, "a\"b\n".toList)], "0.5".toList, some (.flt "1.5".toList)⟩⟩]⟩
+      some ⟨[("trace_id".toList, "a\"b\n".toList), ("a b\n# EOF".toList, ['x']), ("l\n".toList, [])], "0.5".toList,
+        some (.flt "1.5".toList)⟩⟩]⟩
 example : familyOKOM exFamOM = true := by decide
 example : ∃ out, OMExpo.generateLatest [exFamOM] = .ok out := ⟨_, rfl⟩
 
-/-- F3 in the model: `c.inc(1, {'a b\n# EOF': 'x'})` — the exemplar label name is written raw: the sample line is
-split and a second piece begins with `# EOF` -/
+/-- regression of repaired F3: `c.inc(1, {'a\n# EOF\nb': 'x'})` — the exemplar label name is quoted and escaped -/
 def f3Fam : Family :=
   ⟨['c'], ['h'], "counter".toList, [],
-    [⟨"c_total".toList, [], "1.0".toList, none, some ⟨[("a b\n# EOF".toList, ['x'])], "1.0".toList, none⟩⟩]⟩
-theorem f3_counterexample :
-    validateLabelname false "a b\n# EOF".toList = .ok () ∧
-    OMExpo.generateLatest [f3Fam] =
-      .ok "# HELP c h\n# TYPE c counter\nc_total 1.0 # {a b\n# EOF=\"x\"} 1.0\n# EOF\n".toList ∧
-    lineKinds true "# HELP c h\n# TYPE c counter\nc_total 1.0 # {a b\n# EOF=\"x\"} 1.0\n# EOF\n".toList =
-      [some .help, some .type, none, none, some .eof, none] ∧
-    familyOKOM f3Fam = false := by decide +kernel
-
-/-- F3, sharper: an exemplar label name can plant an exact `# EOF` line in the middle of the exposition -/
-def f3EofFam : Family :=
-  ⟨['c'], ['h'], "counter".toList, [],
     [⟨"c_total".toList, [], "1.0".toList, none, some ⟨[("a\n# EOF\nb".toList, ['x'])], "1.0".toList, none⟩⟩]⟩
-theorem f3_eof_counterexample :
-    OMExpo.generateLatest [f3EofFam] =
-      .ok "# HELP c h\n# TYPE c counter\nc_total 1.0 # {a\n# EOF\nb=\"x\"} 1.0\n# EOF\n".toList ∧
-    lineKinds true "# HELP c h\n# TYPE c counter\nc_total 1.0 # {a\n# EOF\nb=\"x\"} 1.0\n# EOF\n".toList =
-      [some .help, some .type, none, some .eof, none, some .eof, none] := by decide +kernel
+example :
+    OMExpo.generateLatest [f3Fam] =
+      .ok "# HELP c h\n# TYPE c counter\nc_total 1.0 # {\"a\\n# EOF\\nb\"=\"x\"} 1.0\n# EOF\n".toList ∧
+    lineKinds true "# HELP c h\n# TYPE c counter\nc_total 1.0 # {\"a\\n# EOF\\nb\"=\"x\"} 1.0\n# EOF\n".toList =
+      [some .help, some .type, some .sample, some .eof, none] ∧
+    familyOKOM f3Fam = true := by decide +kernel
 
 /-- F4 in the model: `Gauge('g','d',unit='a\nb')` (UTF-8 names) — the unit is neither validated nor escaped -/
 def f4Fam : Family :=
@@ -295,8 +294,8 @@ example : Ctor.wrapperInit true "counter".toList "req_total".toList "ns".toList 
   decide
 example : Ctor.wrapperInit true "histogram".toList ['h'] [] [] [] [['l', 'e']] = .error .valueError := by decide
 example : Ctor.wrapperInit true "info".toList ['i'] [] [] ['s'] [] = .error .valueError := by decide
-/-- F2 at the constructor: legacy validation accepts a full name ending in LF (here through the unit) -/
-example : Ctor.wrapperInit true "gauge".toList ['g'] [] [] ['a', '\n'] [] = .ok "g_a\n".toList := by decide
+/-- regression of repaired F2 at the constructor: legacy validation rejects a full name ending in LF (here through the unit) -/
+example : Ctor.wrapperInit true "gauge".toList ['g'] [] [] ['a', '\n'] [] = .error .valueError := by decide
 
 -- (6) Graphite ------------------------------------------------------------------------------------------------------
 /-- `_sanitize` output consists of whitelist characters only, for every input; whitelist characters are printable
@@ -314,11 +313,13 @@ theorem graphite_one_line_per_sample (tags : Bool) (pfx : Str) (now : Int) (fams
   lines_length tags pfx now fams
 
 /-
-Full strength (FALSE on the unchanged tree — candidate findings G1, G2):
-  every line string is `path SP value SP timestamp` for every prefix and every sample name.
-Proved: with `graphiteOK`: the prefix (inserted raw by `push`) consists of path characters, prefix or sample name is
-non-empty, the value is a number token, the clock is non-negative.  Label names and label VALUES need no hypothesis:
-both go through `_sanitize`.
+Full strength (FALSE on the unchanged tree — known finding G2):
+  every line string is `path SP value SP timestamp` for every sample name, label name and label value.
+Proved: with `graphiteOK`: prefix or sample name is non-empty (G2), plus preconditions: the value is a number token, the
+clock is non-negative, and the `prefix` argument — operator configuration, not an application-supplied string of the
+property's quantifier, inserted raw by `push` — consists of path characters (a precondition on configuration, not a
+finding; `graphite_prefix_counterexample` documents what happens outside it).  Metric names, label names and label
+VALUES need no hypothesis: all go through `_sanitize`.
 -/
 /-- each Graphite line is LF-terminated, LF-free, and `path SP value SP int` with exactly two spaces -/
 theorem graphite_lines_exact_partial (tags : Bool) (prefixstr : Str) (now : Int) (s : Sample)
@@ -337,7 +338,7 @@ example : graphiteOK "p.q.".toList 123 ⟨"m x".toList, [("l é".toList, "v w\n;
 example : Graphite.line true "p.".toList 123 ⟨"m x".toList, [("l é".toList, "v w\n;=.".toList)], "1.0".toList, none, none⟩ =
     "p.m_x;l__=v_w____ 1.0 123\n".toList := by decide +kernel
 
-/-- G1 in the model: `push(prefix='evil 1 1\ninjected')` — the prefix is inserted raw: one sample, two
+/-- DOCUMENTED LIMIT (not a finding: the prefix is configuration, outside the property's quantifier): `push(prefix='evil 1 1\ninjected')` — the prefix is inserted raw: one sample, two
 well-formed Graphite lines on the wire, the first one forged -/
 def g1Fam : Family := ⟨['m'], [], "gauge".toList, [], [⟨['m'], [], "1.0".toList, none, none⟩]⟩
 theorem graphite_prefix_counterexample :
